@@ -323,8 +323,17 @@ def gen_module(rng, index):
         for _ in range(rng.randint(0, 3)):
             lines.append(rng.choice(["    # after", "", "    unreachable = 1"]))
     lines += [""] * rng.choice([0, 1, 3])
+    tab_indented = rng.random() < 0.2
+    if tab_indented:
+        # a file indented with tabs (one tab per level): what is shown is the line with its tabs expanded
+        def retab(l):
+            n = 0
+            while l.startswith("    ", 4 * n):
+                n += 1
+            return "\t" * n + l[4 * n:]
+        lines = [retab(l) for l in lines]
     src = "\n".join(lines) + ("\n" if rng.random() < 0.8 else "")
-    return src, {"entry": names[0], "raise_lines": raise_lines, "odd_breaks": odd_breaks}
+    return src, {"entry": names[0], "raise_lines": raise_lines, "odd_breaks": odd_breaks, "tab_indented": tab_indented}
 
 
 _tmpdir = None
